@@ -64,6 +64,16 @@ func drawHistory(t *rapid.T, set PSetting, label string, allowFail bool) History
 			total += n
 		}
 	}
+	if rapid.IntRange(0, 7).Draw(t, label+"_exact") == 0 {
+		// Flush exactly at a multiple of 64 KiB (16-bit position wrap), then a little more, left unflushed
+		k := rapid.IntRange(1, 3).Draw(t, label+"_k")
+		pre := total % 65536
+		first := k*65536 - pre
+		h.Ops = append(h.Ops, gen.Op{K: "W", N: first}, gen.Op{K: "F"})
+		small := rapid.IntRange(1, 40).Draw(t, label+"_tail")
+		h.Ops = append(h.Ops, gen.Op{K: "W", N: small})
+		total += first + small
+	}
 	if rapid.IntRange(0, 2).Draw(t, label+"_close") == 0 {
 		h.Ops = append(h.Ops, gen.Op{K: "C"})
 	}
